@@ -1,7 +1,7 @@
 (* Model of internal/bigints and internal/bigvector (C19). Executable definitions only. *)
 From Coq Require Import String.
 From Coq Require Import List NArith ZArith Bool.
-From AV Require Import model.Proto.
+From AV Require Import model.Proto model.Bits.
 Import ListNotations.
 Open Scope Z_scope.
 
@@ -85,3 +85,73 @@ Definition concat (xs ys : list Z) : list Z := clone xs ++ ys.
 Definition vnew (n : nat) : list Z := repeat 0 n.
 Definition basis_idx (n i j : nat) : outcome Z :=
   if Nat.leb n j then Panic ($"index") else Ok (if Nat.eqb j i then 1 else 0).
+
+(* ---- call histories (C19 correspondence streams "vhist", "lhist") ----
+   A straight-line program over registers; every instruction appends one register.  Registers
+   are immutable lists here, so an earlier register can never be disturbed by a later call;
+   the Go side re-reads every register at the end of the program. *)
+Inductive vinstr :=
+| VNew (n : nat) | VBasis (n i : nat) | VAdd (a b : nat) | VLsh (a : nat) (s : N) | VIdx (a j : nat).
+
+Definition vstep (regs : list (list Z)) (ins : vinstr) : outcome (list Z) :=
+  match ins with
+  | VNew n => Ok (vnew n)
+  | VBasis n i => Ok (basis n i)
+  | VAdd a b => match nth_error regs a, nth_error regs b with
+                | Some u, Some v => vadd u v
+                | _, _ => Err ($"badreg")
+                end
+  | VLsh a s => match nth_error regs a with Some u => Ok (vlsh u s) | None => Err ($"badreg") end
+  | VIdx a j => match nth_error regs a with
+                | Some u => match nth_error u j with Some x => Ok [x] | None => Panic ($"index") end
+                | None => Err ($"badreg")
+                end
+  end.
+
+Fixpoint vhist (prog : list vinstr) (regs : list (list Z)) : outcome (list (list Z)) :=
+  match prog with
+  | [] => Ok regs
+  | ins :: r => obind (vstep regs ins) (fun v => vhist r (regs ++ [v]))
+  end.
+
+Inductive linstr :=
+| LLit (l : list Z) | LClone (a : nat) | LConcat (a b : nat) | LUnique (a : nat) | LMerge (a b : nat)
+| LInsert (a : nat) (x : Z) | LSort (a : nat) | LSub (a lo hi : nat) | LMinMax (a i j : nat).
+
+Fixpoint replace_nth {A} (k : nat) (v : A) (l : list A) : list A :=
+  match l, k with
+  | [], _ => []
+  | _ :: r, O => v :: r
+  | x :: r, S k' => x :: replace_nth k' v r
+  end.
+
+(* Sort works in place: register a itself becomes sorted; the new register is a copy of it *)
+Definition lstep (regs : list (list Z)) (ins : linstr) : outcome (list (list Z)) :=
+  let bad := Err ($"badreg") in
+  match ins with
+  | LLit l => Ok (regs ++ [l])
+  | LClone a => match nth_error regs a with Some u => Ok (regs ++ [clone u]) | None => bad end
+  | LConcat a b => match nth_error regs a, nth_error regs b with
+                   | Some u, Some v => Ok (regs ++ [concat u v]) | _, _ => bad end
+  | LUnique a => match nth_error regs a with Some u => Ok (regs ++ [unique u]) | None => bad end
+  | LMerge a b => match nth_error regs a, nth_error regs b with
+                  | Some u, Some v => Ok (regs ++ [merge_unique u v]) | _, _ => bad end
+  | LInsert a x => match nth_error regs a with Some u => Ok (regs ++ [insert_sorted_unique u x]) | None => bad end
+  | LSort a => match nth_error regs a with
+               | Some u => Ok (replace_nth a (sort u) regs ++ [sort u]) | None => bad end
+  | LSub a lo hi => match nth_error regs a with
+                    | Some u => if Nat.leb lo hi && Nat.leb hi (length u)
+                                then Ok (regs ++ [firstn (hi - lo) (skipn lo u)]) else bad
+                    | None => bad end
+  | LMinMax a i j => match nth_error regs a with
+                     | Some u => match nth_error u i, nth_error u j with
+                                 | Some x, Some y => let '(mn, mx) := min_max x y in Ok (regs ++ [[mn; mx]])
+                                 | _, _ => bad end
+                     | None => bad end
+  end.
+
+Fixpoint lhist (prog : list linstr) (regs : list (list Z)) : outcome (list (list Z)) :=
+  match prog with
+  | [] => Ok regs
+  | ins :: r => obind (lstep regs ins) (lhist r)
+  end.
